@@ -581,7 +581,7 @@ def loops_progress(an, rep):
                                {"call_path_from_root": path})
             if okk:
                 R.ok(sample={"fn": b.key, "loop_driven_by": [mir.short(i["targs"][0]["s"]) for _, _, i in nexts if i["targs"]]})
-    R.floor("loops in decode-reachable code", n, 3)
+    R.floor("loops in decode-reachable code", n, 1)
     return R
 
 
